@@ -31,6 +31,10 @@ import (
 func init() { gens["C09"] = (*Ctx).genC09 }
 
 func panicOracle(impl string, where string) string {
+	if impl == "timeout" {
+		// "never hangs": the call was abandoned after its time limit
+		return "key=hang:" + where + " the call did not return within its time limit"
+	}
 	if strings.HasPrefix(impl, "panic") {
 		return "key=panic:" + where + " the consuming API panicked: " + impl
 	}
@@ -441,9 +445,16 @@ func (c *Ctx) c09Metadata() {
 			return fmt.Sprint(rec.Code)
 		}},
 	}
+	hangs := 0
 	for _, d := range docs {
 		for _, e := range entries {
+			if hangs >= 3 {
+				continue // (each abandoned call keeps spinning in its goroutine: three reports are enough)
+			}
 			res := withTimeout(func() string { return safely(func() string { return e.run([]byte(d)) }) }, 10*time.Second)
+			if res == "timeout" {
+				hangs++
+			}
 			orc := panicOracle(res, e.name)
 			c.count("c09-metadata:"+e.name, strings.SplitN(res, " ", 2)[0])
 			c.units++
